@@ -227,6 +227,7 @@ class C06(core.Prop):
     ASSUMPTIONS = [
         'SQLAlchemy 2.0 compiles the parser output; sqlite 3.40 and duckdb 1.5 execute it (both must agree with the denotation)',
         'strings are compared for (in)equality only, integers are small (no overflow), no floats / division / avg, NULL ordering keys are not generated (engine-specific)',
+        'set operations nested in set operations are executed on duckdb only (SQLite has no parenthesised compound operands, which is what SQLAlchemy renders for them)',
     ]
 
     # ---- constants derived from the source on every run -----------------------------------------------------------
@@ -425,12 +426,21 @@ class C06(core.Prop):
                 q['ord'] = [[f, rng.choice(['ascending', 'descending'])] for f in ids]
                 exact = True
                 if rng.random() < 0.5:
-                    q['rows'] = [rng.randint(1, 5), rng.choice([0, 0, 1, 2])]
+                    q['rows'] = [rng.choice([0, 1, 1, 2, 3, 5]), rng.choice([0, 0, 1, 2])]
             elif r < 0.6:
                 q['ord'] = [[ids[0], rng.choice(['ascending', 'descending'])]] if total else []
         return ['query', src, q], tables, exact
 
     def _set(self, rng):
+        if rng.random() < 0.2:
+            # a set operation nested in a set operation (either side)
+            t = rng.choice(['A', 'B'])
+            col = lambda: ['col', t, rng.choice(['id', 'x'])]
+            leaf = lambda: ['query', ['table', t], {'sel': [col()], 'pre': fix(dslgen.gen_pred(rng, cols_of([t]), 1)) if rng.random() < 0.7 else None,
+                                                    'grp': [], 'post': None, 'ord': [], 'rows': None}]
+            kinds = ['union', 'intersection', 'difference', 'difference']
+            inner = ['set', rng.choice(kinds), leaf(), leaf()]
+            return (['set', rng.choice(kinds), leaf(), inner] if rng.random() < 0.6 else ['set', rng.choice(kinds), inner, leaf()]), [t], False
         if rng.random() < 0.25:
             # the two branches reference two different tables under the same name
             mk = lambda t, col: ['query', ['ref', ['table', t], 't'], {'sel': [['elem', 't', 'id'], ['elem', 't', col]],
@@ -476,6 +486,14 @@ class C06(core.Prop):
             q(A, sel=[['col', 'A', 'id']], pre=['bin', 'or', ['bin', '==', ['col', 'A', 's'], ['lit', 'a']], ['not', ['bin', '==', ['col', 'A', 'x'], ['lit', 1]]]]),
             ['set', 'union', q(ra, sel=[['elem', 'a2', 'x']]), q(copy.deepcopy(ra), sel=[['elem', 'a2', 'x']], pre=['bin', '>', ['elem', 'a2', 'x'], ['lit', 1]])],
             ['set', 'difference', q(A, sel=[['col', 'A', 'x']]), q(A, sel=[['col', 'A', 'id']])],
+            q(A, sel=[['col', 'A', 'id']], ord=[[['col', 'A', 'id'], 'ascending']], rows=[0, 0]),
+            q(A, sel=[['col', 'A', 'id']], ord=[[['col', 'A', 'id'], 'ascending']], rows=[0, 1]),
+            # nested set operations: a - (b - c), (a - b) - c, a union (b intersect c)
+            ['set', 'difference', q(A, sel=[['col', 'A', 'id']]), ['set', 'difference', q(A, sel=[['col', 'A', 'id']], pre=['bin', '>', ['col', 'A', 'id'], ['lit', 0]]),
+                                                                     q(A, sel=[['col', 'A', 'id']], pre=['bin', '>', ['col', 'A', 'id'], ['lit', 1]])]],
+            ['set', 'difference', ['set', 'difference', q(A, sel=[['col', 'A', 'id']]), q(A, sel=[['col', 'A', 'id']], pre=['bin', '>', ['col', 'A', 'id'], ['lit', 1]])],
+             q(A, sel=[['col', 'A', 'id']], pre=['bin', '<', ['col', 'A', 'id'], ['lit', 1]])],
+            ['set', 'union', q(B, sel=[['col', 'B', 'id']]), ['set', 'intersection', q(A, sel=[['col', 'A', 'id']]), q(A, sel=[['col', 'A', 'x']])]],
             # two DIFFERENT references carrying the same name in sibling scopes (union branches / joined sub-queries)
             ['set', 'union', q(['ref', A, 't'], sel=[['elem', 't', 'x']]), q(['ref', B, 't'], sel=[['elem', 't', 'x']])],
             q(['join', 'inner',
@@ -484,7 +502,7 @@ class C06(core.Prop):
                ['bin', '==', ['elem', 'q1', 'id'], ['elem', 'q2', 'id']]], sel=[['elem', 'q1', 'ax'], ['elem', 'q2', 'bz']]),
             q(A, sel=[['col', 'A', 'id'], ['col', 'A', 'x']], ord=[[['col', 'A', 'id'], 'descending']], rows=[2, 1]),
         ]
-        exact = [False] * (len(stmts) - 1) + [True]
+        exact = [s[0] == 'query' and bool(s[2].get('rows')) for s in stmts]
         return [{'statement': s, 'tables': ['A', 'B', 'C'], 'data': d, 'exact': e} for s, e in zip(stmts, exact)]
 
     def cases(self, rng, tier):
@@ -709,8 +727,11 @@ class C06(core.Prop):
             want = reference(case)
         except Exception as err:  # pylint: disable=broad-except
             return f'reference evaluator failed ({err!r})'
+        nested = case['statement'][0] == 'set' and any(x[0] == 'set' for x in (case['statement'][2], case['statement'][3]))
         for engine in ('sqlite', 'duckdb'):
             res = obs[engine]
+            if engine == 'sqlite' and nested and 'error' in res and 'syntax error' in res['error']:
+                continue      # SQLite's grammar has no parenthesised compound operands: nested set operations are judged on duckdb
             if 'error' in res:
                 return f"{engine} rejects the parser output: {res['error'][:200]}"
             got = [canon_row(r) for r in res['rows']]
